@@ -1,6 +1,6 @@
 (* Source pins (translator T2): facts about the text of /repo/src that the model takes for granted, regenerated on every run
    and compared here with the values the model was written against.
-   * panic_sites: every explicit panic site of the crate (debug_assert!/assert!/expect/unwrap/panic!...) with its message.  The
+   * panic_sites: every explicit panic site of the crate (debug_assert!/assert!/expect/unwrap/panic!...) with its message and the text of the asserted condition.  The
      model has a guard or a Panic outcome for each; a site that is added, removed or reworded is a way to panic (or not) that the
      no-panic theorems do not speak about.
    * lib_impl_methods: the methods each trait impl of lib.rs defines.  The OS-RNG entry points (try_keygen, try_sign,
@@ -13,87 +13,87 @@ Open Scope bool_scope.
 
 Lemma panic_sites_pinned : panic_sites =
 [
-  ("conversion.rs", "debug_assert", "Alg 15: incorrect eta");
-  ("conversion.rs", "debug_assert", "Alg 15: b out of range");
-  ("conversion.rs", "debug_assert", "Alg 16: b out of range");
-  ("conversion.rs", "debug_assert", "Alg 16: w out of range");
-  ("conversion.rs", "debug_assert_eq", "Alg 16: incorrect size of output bytes");
-  ("conversion.rs", "debug_assert", "Alg 17: a out of range");
-  ("conversion.rs", "debug_assert", "Alg 17: b out of range");
-  ("conversion.rs", "debug_assert", "Alg 17: w out of range");
-  ("conversion.rs", "debug_assert_eq", "Alg 17: bad output size");
-  ("conversion.rs", "debug_assert", "Alg 18: b out of range");
-  ("conversion.rs", "debug_assert_eq", "Alg 18: bad output size");
-  ("conversion.rs", "debug_assert", "Alg 19: a out of range");
-  ("conversion.rs", "debug_assert", "Alg 19: b out of range");
-  ("conversion.rs", "debug_assert_eq", "Alg 19: bad output size");
-  ("conversion.rs", "expect", "Alg 19: try_into fail");
-  ("conversion.rs", "expect", "Alg 20: try_from fail");
-  ("conversion.rs", "debug_assert", "Alg 20: omega+K out of range");
-  ("conversion.rs", "debug_assert_eq", "Alg 20: bad output size");
-  ("conversion.rs", "debug_assert", "Alg 20: h not 0/1");
-  ("conversion.rs", "debug_assert", "Alg 20: too many 1's in h");
-  ("conversion.rs", "expect", "Alg 21: omega try_into fail");
-  ("conversion.rs", "debug_assert", "Alg 21: omega+K too large");
-  ("conversion.rs", "debug_assert_eq", "Alg 21: bad output size");
-  ("conversion.rs", "debug_assert", "Alg 21: too many 1's in h");
-  ("encodings.rs", "debug_assert", "Alg 22: t1 out of range");
-  ("encodings.rs", "debug_assert_eq", "Alg 22: bad pk/config size");
-  ("encodings.rs", "debug_assert_eq", "Alg 23: incorrect pk length");
-  ("encodings.rs", "debug_assert_eq", "Alg 23: bad pk/config size");
-  ("encodings.rs", "expect", "Alg 23: try_from fail");
-  ("encodings.rs", "debug_assert", "Alg 23: t1 out of range");
-  ("encodings.rs", "debug_assert", "Alg 24: incorrect eta");
-  ("encodings.rs", "debug_assert", "Alg 24: s1 out of range");
-  ("encodings.rs", "debug_assert", "Alg 24: s2 out of range");
-  ("encodings.rs", "debug_assert", "Alg 24: t0 out of range");
-  ("encodings.rs", "debug_assert_eq", "Alg 24: bad sk/config size");
-  ("encodings.rs", "debug_assert_eq", "Alg 24: length miscalc");
-  ("encodings.rs", "debug_assert", "Alg 25: incorrect eta");
-  ("encodings.rs", "debug_assert_eq", "Alg 25: bad sk/config size");
-  ("encodings.rs", "expect", "Alg 25: try_from1 fail");
-  ("encodings.rs", "expect", "Alg 25: try_from2 fail");
-  ("encodings.rs", "expect", "Alg 25: try_from3 fail");
-  ("encodings.rs", "debug_assert_eq", "Alg 25: length miscalc");
-  ("encodings.rs", "debug_assert", "Alg 26: z out of range");
-  ("encodings.rs", "debug_assert", "Alg 26: h out of range");
-  ("encodings.rs", "debug_assert_eq", "Alg 26: bad sig/config size");
-  ("encodings.rs", "debug_assert_eq", "Alg 27: bad sig/config size");
-  ("encodings.rs", "debug_assert_eq", "Alg 28: bad w1_tilde/config size");
-  ("encodings.rs", "debug_assert", "Alg 28: w1 out of range");
-  ("hashing.rs", "expect", "Alg 29: try_from fail");
-  ("hashing.rs", "debug_assert", "Alg 29: bad hamming weight (a)");
-  ("hashing.rs", "debug_assert", "Alg 29: bad hamming weight (b)");
-  ("hashing.rs", "expect", "cannot fail");
-  ("hashing.rs", "debug_assert_eq", "Alg 30: bad rho size");
-  ("hashing.rs", "debug_assert_eq", "Alg 31: bad rho size");
-  ("hashing.rs", "debug_assert", "Alg 33: s1 out of range");
-  ("hashing.rs", "debug_assert", "Alg 33: s2 out of range");
-  ("hashing.rs", "debug_assert", "Alg 34: illegal c");
-  ("hashing.rs", "expect", "Alg 34: try_from1 fail");
-  ("hashing.rs", "expect", "Alg 34: try_from2 fail");
-  ("hashing.rs", "debug_assert", "Alg 34: s coeff out of range");
-  ("helpers.rs", "debug_assert", "partial_reduce64 input");
-  ("helpers.rs", "debug_assert", "partial_reduce64 output");
-  ("helpers.rs", "debug_assert", "partial_reduce64b output");
-  ("helpers.rs", "debug_assert", "partial_reduce32 input");
-  ("helpers.rs", "debug_assert", "partial_reduce32 output");
-  ("helpers.rs", "debug_assert", "full_reduce32 input");
-  ("helpers.rs", "debug_assert", "full_reduce32 output");
-  ("helpers.rs", "debug_assert", "center_mod input");
-  ("helpers.rs", "debug_assert_eq", "center_mod output");
-  ("helpers.rs", "expect", "infinity norm fails");
-  ("helpers.rs", "debug_assert", "mont_reduce input (a)");
-  ("helpers.rs", "debug_assert", "mont_reduce input (b)");
-  ("helpers.rs", "debug_assert", "mont_reduce output 1");
-  ("helpers.rs", "debug_assert", "mont_reduce output 2");
-  ("high_low.rs", "debug_assert", "power2round input");
-  ("high_low.rs", "debug_assert", "Alg 35: fails");
-  ("high_low.rs", "debug_assert_eq", "Alg 36: fails");
-  ("ml_dsa.rs", "expect", "cannot fail; L is static parameter");
-  ("ml_dsa.rs", "expect", "cannot fail; L is static parameter");
-  ("ml_dsa.rs", "expect", "cannot fail; L is static parameter");
-  ("ml_dsa.rs", "debug_assert", "Alg 8: i_norm out of range")
+  ("conversion.rs", "debug_assert", "Alg 15: incorrect eta", "(eta==2)||(eta==4)");
+  ("conversion.rs", "debug_assert", "Alg 15: b out of range", "b<16");
+  ("conversion.rs", "debug_assert", "Alg 16: b out of range", "(1..1024*1024).contains(&b)");
+  ("conversion.rs", "debug_assert", "Alg 16: w out of range", "is_in_range(w,0,b)");
+  ("conversion.rs", "debug_assert_eq", "Alg 16: incorrect size of output bytes", "bytes_out.len(),32*bit_length(b)");
+  ("conversion.rs", "debug_assert", "Alg 17: a out of range", "(0..(1024*1024)).contains(&a)");
+  ("conversion.rs", "debug_assert", "Alg 17: b out of range", "(1..(1024*1024)).contains(&b)");
+  ("conversion.rs", "debug_assert", "Alg 17: w out of range", "is_in_range(w,a,b)");
+  ("conversion.rs", "debug_assert_eq", "Alg 17: bad output size", "w.0.len()*bit_length(a+b),bytes_out.len()*8");
+  ("conversion.rs", "debug_assert", "Alg 18: b out of range", "(1..(1024*1024)).contains(&b)");
+  ("conversion.rs", "debug_assert_eq", "Alg 18: bad output size", "v.len(),32*bit_length(b)");
+  ("conversion.rs", "debug_assert", "Alg 19: a out of range", "(0..(1024*1024)).contains(&a)");
+  ("conversion.rs", "debug_assert", "Alg 19: b out of range", "(1..(1024*1024)).contains(&b)");
+  ("conversion.rs", "debug_assert_eq", "Alg 19: bad output size", "v.len(),32*bit_length(a+b)");
+  ("conversion.rs", "expect", "Alg 19: try_into fail", "");
+  ("conversion.rs", "expect", "Alg 20: try_from fail", "");
+  ("conversion.rs", "debug_assert", "Alg 20: omega+K out of range", "(1..256).contains(&(omega_u+K))");
+  ("conversion.rs", "debug_assert_eq", "Alg 20: bad output size", "y_bytes.len(),omega_u+K");
+  ("conversion.rs", "debug_assert", "Alg 20: h not 0/1", "h.iter().all(|r|is_in_range(r,0,1))");
+  ("conversion.rs", "debug_assert", "Alg 20: too many 1's in h", "h.iter().all(|r|r.0.iter().filter(|&e|*e==1).sum::<i32>()<=omega)");
+  ("conversion.rs", "expect", "Alg 21: omega try_into fail", "");
+  ("conversion.rs", "debug_assert", "Alg 21: omega+K too large", "(1..256).contains(&(omega_u+K))");
+  ("conversion.rs", "debug_assert_eq", "Alg 21: bad output size", "y_bytes.len(),omega_u+K");
+  ("conversion.rs", "debug_assert", "Alg 21: too many 1's in h", "h.iter().all(|r|r.0.iter().filter(|&&e|e==1).sum::<i32>()<=omega)");
+  ("encodings.rs", "debug_assert", "Alg 22: t1 out of range", "t1.iter().all(|t|is_in_range(t,0,(1<<BLQD)-1))");
+  ("encodings.rs", "debug_assert_eq", "Alg 22: bad pk/config size", "PK_LEN,32+32*K*BLQD");
+  ("encodings.rs", "debug_assert_eq", "Alg 23: incorrect pk length", "pk.len(),32+32*K*BLQD");
+  ("encodings.rs", "debug_assert_eq", "Alg 23: bad pk/config size", "PK_LEN,32+32*K*BLQD");
+  ("encodings.rs", "expect", "Alg 23: try_from fail", "");
+  ("encodings.rs", "debug_assert", "Alg 23: t1 out of range", "t1.iter().all(|t|is_in_range(t,0,(1<<BLQD)-1))");
+  ("encodings.rs", "debug_assert", "Alg 24: incorrect eta", "(eta==2)||(eta==4)");
+  ("encodings.rs", "debug_assert", "Alg 24: s1 out of range", "s_1.iter().all(|x|is_in_range(x,eta,eta))");
+  ("encodings.rs", "debug_assert", "Alg 24: s2 out of range", "s_2.iter().all(|x|is_in_range(x,eta,eta))");
+  ("encodings.rs", "debug_assert", "Alg 24: t0 out of range", "t_0.iter().all(|x|is_in_range(x,top-1,top))");
+  ("encodings.rs", "debug_assert_eq", "Alg 24: bad sk/config size", "SK_LEN,128+32*((K+L)*bit_length(2*eta)+Dasusize*K)");
+  ("encodings.rs", "debug_assert_eq", "Alg 24: length miscalc", "start+K*step,sk.len()");
+  ("encodings.rs", "debug_assert", "Alg 25: incorrect eta", "(eta==2)||(eta==4)");
+  ("encodings.rs", "debug_assert_eq", "Alg 25: bad sk/config size", "SK_LEN,128+32*((K+L)*bit_length(2*eta)+Dasusize*K)");
+  ("encodings.rs", "expect", "Alg 25: try_from1 fail", "");
+  ("encodings.rs", "expect", "Alg 25: try_from2 fail", "");
+  ("encodings.rs", "expect", "Alg 25: try_from3 fail", "");
+  ("encodings.rs", "debug_assert_eq", "Alg 25: length miscalc", "start+K*step,sk.len()");
+  ("encodings.rs", "debug_assert", "Alg 26: z out of range", "z.iter().all(|x|is_in_range(x,gamma1-1,gamma1))");
+  ("encodings.rs", "debug_assert", "Alg 26: h out of range", "h.iter().all(|x|is_in_range(x,0,1))");
+  ("encodings.rs", "debug_assert_eq", "Alg 26: bad sig/config size", "SIG_LEN,LAMBDA_DIV4+L*32*(1+bit_length(gamma1-1))+omega.unsigned_abs()asusize+K");
+  ("encodings.rs", "debug_assert_eq", "Alg 27: bad sig/config size", "SIG_LEN,LAMBDA_DIV4+L*32*(1+bit_length(gamma1-1))+omega.unsigned_abs()asusize+K");
+  ("encodings.rs", "debug_assert_eq", "Alg 28: bad w1_tilde/config size", "w1_tilde.len(),32*K*bit_length(qm1_d_2g_m1)");
+  ("encodings.rs", "debug_assert", "Alg 28: w1 out of range", "w1.iter().all(|r|is_in_range(r,0,qm1_d_2g_m1))");
+  ("hashing.rs", "expect", "Alg 29: try_from fail", "");
+  ("hashing.rs", "debug_assert", "Alg 29: bad hamming weight (a)", "c.0.iter().map(|&e|usize::from(e!=0)).sum::<usize>()==tau");
+  ("hashing.rs", "debug_assert", "Alg 29: bad hamming weight (b)", "c.0.iter().map(|&e|e&1).sum::<i32>()==tau.try_into().expect('cannotfail')");
+  ("hashing.rs", "expect", "cannot fail", "");
+  ("hashing.rs", "debug_assert_eq", "Alg 30: bad rho size", "rhos.iter().map(|&i|i.len()).sum::<usize>(),272/8");
+  ("hashing.rs", "debug_assert_eq", "Alg 31: bad rho size", "rhos.iter().map(|&i|i.len()).sum::<usize>(),528/8");
+  ("hashing.rs", "debug_assert", "Alg 33: s1 out of range", "s1.iter().all(|r|is_in_range(r,eta,eta))");
+  ("hashing.rs", "debug_assert", "Alg 33: s2 out of range", "s2.iter().all(|r|is_in_range(r,eta,eta))");
+  ("hashing.rs", "debug_assert", "Alg 34: illegal c", "(c==18)||(c==20)");
+  ("hashing.rs", "expect", "Alg 34: try_from1 fail", "");
+  ("hashing.rs", "expect", "Alg 34: try_from2 fail", "");
+  ("hashing.rs", "debug_assert", "Alg 34: s coeff out of range", "y.iter().all(|r|is_in_range(r,gamma1-1,gamma1))");
+  ("helpers.rs", "debug_assert", "partial_reduce64 input", "a.abs()<(67_058_539<<32)");
+  ("helpers.rs", "debug_assert", "partial_reduce64 output", "res.abs()<2*Qasi64");
+  ("helpers.rs", "debug_assert", "partial_reduce64b output", "res.abs()<2*Qasi64");
+  ("helpers.rs", "debug_assert", "partial_reduce32 input", "a.abs()<2_143_289_344");
+  ("helpers.rs", "debug_assert", "partial_reduce32 output", "res.abs()<Q");
+  ("helpers.rs", "debug_assert", "full_reduce32 input", "a.abs()<2_143_289_344");
+  ("helpers.rs", "debug_assert", "full_reduce32 output", "res<Q");
+  ("helpers.rs", "debug_assert", "center_mod input", "m.abs()<2_143_289_344");
+  ("helpers.rs", "debug_assert_eq", "center_mod output", "m.rem_euclid(Q),res.rem_euclid(Q)");
+  ("helpers.rs", "expect", "infinity norm fails", "");
+  ("helpers.rs", "debug_assert", "mont_reduce input (a)", "a>=-17_996_808_479_301_632");
+  ("helpers.rs", "debug_assert", "mont_reduce input (b)", "a<=17_996_808_470_921_215");
+  ("helpers.rs", "debug_assert", "mont_reduce output 1", "res<(Qasi64)");
+  ("helpers.rs", "debug_assert", "mont_reduce output 2", "-(Qasi64)<res");
+  ("high_low.rs", "debug_assert", "power2round input", "r.iter().flat_map(|row|row.0).all(|element|(0..Q).contains(&element))");
+  ("high_low.rs", "debug_assert", "Alg 35: fails", "{letmutresult=true;forkin0..K{fornin0..256{result&=r[k].0[n]==((r_1[k].0[n]<<D)+r_0[k].0[n]);}}result}");
+  ("high_low.rs", "debug_assert_eq", "Alg 36: fails", "r.rem_euclid(Q),(xr1*2*gamma2+xr0).rem_euclid(Q)");
+  ("ml_dsa.rs", "expect", "cannot fail; L is static parameter", "");
+  ("ml_dsa.rs", "expect", "cannot fail; L is static parameter", "");
+  ("ml_dsa.rs", "expect", "cannot fail; L is static parameter", "");
+  ("ml_dsa.rs", "debug_assert", "Alg 8: i_norm out of range", "infinity_norm(&z)<=gamma1")
 ].
 Proof. reflexivity. Qed.
 
